@@ -104,6 +104,11 @@ def run(ctx) -> None:
             d = shapes.single_def(dls, e.id)
             if d is not None:
                 return possible(d)
+            if e.id not in dls.all_params and not shapes.local_defs(dls, e.id):
+                try:
+                    return [prog.fold(dls.module, e)]          # a module-level constant
+                except AnalysisError:
+                    return None
         return None
     for r in rets:
         vals = possible(r.value)
@@ -222,19 +227,26 @@ def run(ctx) -> None:
             ok_base = (isinstance(base, ast.Subscript) and unparse(base.value) == res and unparse(base.slice) == idx) or unparse(base).endswith(".line")
             ctx.check("R3", ok_base, f"{rl_fq}: the base is the line being stored ({res}[{idx}])", f"{rl_fq}: the splice is applied to a different line than the one stored",
                       f"base `{unparse(base)}` stored at [{idx}]", loc=rlf.loc(st))
-    ifp = prog.function("parse._iter_for_pattern")
+    # the function that searches the lines for one pattern: a helper of iter_matches in the pinned tree, or iter_matches itself
+    ifp = prog.function("parse._iter_for_pattern") if prog.has_function("parse._iter_for_pattern") else prog.function("parse.iter_matches")
     ctx.visit(ifp.fq)
     pm = [c for c in ast.walk(ifp.node) if isinstance(c, ast.Call) and unparse(c.func) == "PatternMatch"]
-    ctx.require(len(pm) == 1, "_iter_for_pattern: PatternMatch constructor not found")
-    lp = [n for n in walk_no_nested(ifp.node) if isinstance(n, ast.For)][0]
+    ctx.require(len(pm) == 1, f"{ifp.name}: PatternMatch constructor not found")
+    lps = [n for n in walk_no_nested(ifp.node) if isinstance(n, ast.For) and unparse(n.iter).startswith("enumerate(") and any(c is pm[0] for c in ast.walk(n))]
+    ctx.require(len(lps) == 1, f"{ifp.name}: line loop not found")
+    lp = lps[0]
     names = [unparse(e) for e in lp.target.elts] if isinstance(lp.target, ast.Tuple) else []
     pmf = prog.klass("parse.PatternMatch").fields
     a = dict(zip(pmf, pm[0].args))
     a.update(shapes.kwargs_of(pm[0]))
-    mdef = shapes.single_def(ifp, "match")
+    span_e = a.get("span")
+    mvar = unparse(span_e.func.value) if isinstance(span_e, ast.Call) and isinstance(span_e.func, ast.Attribute) and span_e.func.attr == "span" and not span_e.args else None
+    mdef = shapes.single_def(ifp, mvar) if mvar else None
+    pat_e = unparse(a.get("pattern", ast.Constant(0)))
+    pat_ok = pat_e == (ifp.params[1] if ifp.name == "_iter_for_pattern" else None) or any(isinstance(l_, ast.For) and unparse(l_.target) == pat_e and any(x is lp for x in ast.walk(l_))
+                                                                                         for l_ in walk_no_nested(ifp.node))
     ok = len(names) == 2 and unparse(a.get("lineno", ast.Constant(0))) == names[0] and unparse(a.get("line", ast.Constant(0))) == names[1] \
-        and unparse(a.get("span", ast.Constant(0))) == "match.span()" and mdef is not None and unparse(mdef) == f"{ifp.params[1]}.regexp.search({names[1]})" \
-        and unparse(a.get("pattern", ast.Constant(0))) == ifp.params[1]
+        and mvar is not None and mdef is not None and unparse(mdef) == f"{pat_e}.regexp.search({names[1]})" and pat_ok
     ctx.check("R3", ok, "_iter_for_pattern: PatternMatch(lineno, line, pattern, match.span(), ...) of the same enumerate step and search",
               "parse._iter_for_pattern: a match is recorded with a line/span of a different line", unparse(pm[0]), loc=ifp.loc(pm[0]))
 
